@@ -11,6 +11,9 @@ import MosnVerif.Lemmas.PoolRecover
 import MosnVerif.Lemmas.H2ReadLoop
 import MosnVerif.Model.DubboMeta
 import MosnVerif.Lemmas.H1Serve
+import MosnVerif.Lemmas.H2ClientSettings
+import MosnVerif.Lemmas.NeedMoreLive
+import MosnVerif.Lemmas.H2Trailers
 /-!
 # C08 — malformed input is contained (property theorems only)
 
@@ -248,7 +251,9 @@ example : (chkBolt false (boltReq.take 30)).out = .needMore := by decide
 example : (chkBolt false (boltReq.set 17 11 ++ [0])).out = .error 36 := by decide
 example : (chkBolt false (boltReq.set 1 9)).out = .error 0 := by decide
 example : (chkThrift (fun _ => true) [0,0,0,2,0xda,0xbc]).out = .error 0 := by decide
-example : (chkTars (fun _ => true) [0,0,0,3,1,2,3]).out = .needMore := by decide
+-- [c08l9] an announced package length below the prefix itself (PACKAGE_ERROR) is a decode error since the tars fix
+example : (chkTars (fun _ => true) [0,0,0,3,1,2,3]).out = .error 0 := by decide
+example : (chkTars (fun _ => true) [0,0,0,9,1,2,3]).out = .needMore := by decide
 
 -- HPACK: a 10-byte continuation run overflows, a length beyond the received bytes asks for more (DecodeFull: error)
 example : MosnVerif.Model.FrameHpack.readVarInt 7 [0x7f, 0x83, 0x01] = .ok 258 [] := by decide
@@ -605,5 +610,164 @@ theorem http1_limits_enforced (cfg headLen avail : Nat) (h : effReader (h1_srvRe
 example : (headRead 8192 8192 9000).1 = .parsed ∧ (headRead 8192 8193 9000) = (.tooLarge, 8192) ∧
     (headRead 8192 100000 5000) = (.needMore, 5000) ∧ (headRead 3 17 40) = (.tooLarge, 16) := by decide
 end http1
+
+/-! ## [c08l9] SETTINGS of an upstream are validated before they are applied; the request writers' loops end -/
+section c08l9settings
+open MosnVerif.Model.H2ClientSettings MosnVerif.Lemmas.H2ClientSettings MosnVerif.Gen
+
+/-- the tie of this section, decided on the regenerated structure: on BOTH sides (MServerConn via the embedded
+serverConn.processSetting, MClientConn via its callback) the function handed to `ForeachSetting` returns the error of
+`s.Valid()` before it assigns anything; MAX_FRAME_SIZE is stored in the field the writers read; the HEADERS loop has the
+shape the model is written from and its callers pass that field. -/
+theorem settings_validated_before_applied :
+    C08H2Settings.clientValidatesFirst = true ∧ C08H2Settings.serverValidatesFirst = true ∧
+    stores C08H2Settings.clientApplies 5 "cc.maxFrameSize" = true ∧
+    stores C08H2Settings.serverApplies 5 "sc.maxFrameSize" = true ∧
+    C08H2Settings.headersLoopShape = ["len(hdrs)>0", "chunk:=hdrs", "cut:chunk=chunk[:maxFrameSize]", "hdrs=hdrs[len(chunk):]"] ∧
+    C08H2Settings.headersMaxArgs.all (fun a => a == "int(cc.maxFrameSize)" || a == "int(cc.conn.maxFrameSize)") = true ∧
+    0 < C08H2Settings.dataFragMax := by decide
+
+/-- **client_settings_keep_frame_size_in_range**: whatever SETTINGS frames an upstream sends (EVERY list of
+(id, value) pairs, every id and every 32-bit or larger value), if `processSettings` (regenerated: validates first,
+assignments) accepts them the stored MAX_FRAME_SIZE is inside [16384, 2^24-1]. -/
+theorem client_settings_keep_frame_size_in_range (ss : List (Nat × Nat)) (c0 c : Conn) (h0 : c0.Ok)
+    (h : processSettings C08H2Settings.clientValidatesFirst C08H2Settings.clientApplies c0 ss = .ok c) : c.Ok := by
+  have hv : C08H2Settings.clientValidatesFirst = true := by decide
+  rw [hv] at h
+  exact processSettings_ok _ ss c0 c h0 h
+
+/-- **client_request_writers_terminate** (no unbounded loop on the goroutine that writes a request): after ANY accepted
+sequence of SETTINGS, for EVERY header block length and EVERY body length covered by the send window, the
+HEADERS/CONTINUATION loop of `writeHeaders` and the DATA loop of `writeDataAndTrailer` end within (length) turns, every
+frame carries at least one octet (progress), header fragments are at most the peer's frame size, and the fragments add
+up to what was to be written. -/
+theorem client_request_writers_terminate (ss : List (Nat × Nat)) (c : Conn)
+    (h : processSettings C08H2Settings.clientValidatesFirst C08H2Settings.clientApplies init ss = .ok c)
+    (hlen b avail : Nat) (hb : b ≤ avail) :
+    (∃ fs, headerFrames c.maxFrameSize (hlen + 1) hlen = some fs ∧ sumI fs = hlen ∧
+      (∀ f ∈ fs, 0 < f ∧ f ≤ (c.maxFrameSize : Int)) ∧ (fs.length : Int) ≤ hlen) ∧
+    (∃ fs, dataFrames c.maxFrameSize (b + 1) avail b = some fs ∧ sumI fs = b ∧ ∀ f ∈ fs, 0 < f) := by
+  have hok := client_settings_keep_frame_size_in_range ss init c init_ok h
+  have hm : (0 : Int) < (c.maxFrameSize : Int) := by have := hok.1; omega
+  exact ⟨headerFrames_terminates _ hm hlen hlen (by omega) (by omega),
+    dataFrames_terminates _ hm b avail b (by omega) (by omega) (by omega)⟩
+
+/-- the model's outcome of EVERY `h2set` case satisfies the executable predicate (the request ends; every frame makes
+progress) — for every setting id, every value, every header block and every body covered by the initial window -/
+theorem h2set_spec_holds_on_model (id val hdr hlen b : Nat) (hb : b ≤ 65535) :
+    h2setSpec (h2setModel C08H2Settings.clientValidatesFirst C08H2Settings.clientApplies id val hdr hlen b) = true := by
+  unfold h2setModel
+  split
+  · exact request_spec _ _ _ _ _ (by decide) (by decide) hb
+  · rename_i c hc
+    split
+    · decide
+    · have hok := client_settings_keep_frame_size_in_range _ init c init_ok hc
+      exact request_spec _ _ _ _ _ (by decide) (by have := hok.1; omega) hb
+
+/-- machine-checked witness of the defect that was repaired (fix: MClientConn.processSettings calls Valid first): a
+callback that does NOT validate accepts MAX_FRAME_SIZE = 0, and then neither loop ever ends, whatever the fuel — for every
+non-empty header block and every non-empty body. -/
+theorem unvalidated_settings_wedge :
+    ∃ c, processSettings false C08H2Settings.clientApplies init [(5, 0)] = .ok c ∧
+      (∀ fuel (rest : Int), 0 < rest → headerFrames c.maxFrameSize fuel rest = none) ∧
+      (∀ fuel (avail rest : Int), 0 < rest → 0 < avail → dataFrames c.maxFrameSize fuel avail rest = none) := by
+  refine ⟨{ init with maxFrameSize := 0 }, by rfl, ?_, ?_⟩
+  · intro fuel rest hr; exact headerFrames_diverges 0 (by omega) fuel rest hr
+  · intro fuel avail rest hr ha; exact dataFrames_diverges fuel avail rest hr ha
+
+-- non-vacuity: a SETTINGS frame that is accepted and changes the frame size; 40019 octets of header block in 3 frames
+example : processSettings C08H2Settings.clientValidatesFirst C08H2Settings.clientApplies init [(4, 70000), (5, 20000)]
+    = .ok { init with maxFrameSize := 20000, initialWindow := 70000 } := by rfl
+example : headerFrames 20000 40020 40019 = some [20000, 20000, 19] := by decide
+example : dataFrames 20000 30001 65535 30000 = some [16384, 3616, 10000] := by decide
+example : processSettings C08H2Settings.clientValidatesFirst C08H2Settings.clientApplies init [(5, 0)] = .error 1 := by rfl
+example : headerFrames 0 40 5 = none := by decide
+end c08l9settings
+
+/-! ## [c08l9] "need more data" is honest: no connection waits for ever on bytes that can never become a frame -/
+section c08l9needmore
+open MosnVerif.Model.FrameSteps MosnVerif.Model.NeedMoreLive MosnVerif.Lemmas.NeedMoreLive MosnVerif.Gen.FrameConsts
+
+/-- **needmore_is_live_partial**: for dubbo, dubbothrift and tars (either payload oracle) and EVERY byte string the
+decoder answers "need more data" on, there is a continuation on which it answers a frame or an error: the connection is
+never stuck whatever the peer sends next.  (tars: since the fix that maps TarsGo's PACKAGE_ERROR to a decode error —
+regenerated flag `tars_packageErrorFails`; with the flag false the statement is false, see the witness below.)
+Full statement: the same for bolt and boltv2 (their selection on the first bytes is not done here). -/
+theorem needmore_is_live_partial (proto : String) (oracle : Bytes → Bool) (step : Bytes → Step Bytes)
+    (hp : proto = "dubbo" ∨ proto = "thrift" ∨ proto = "tars") (hs : frameStepOf proto oracle = some step)
+    (b : Bytes) (h : step b = .needMore) : ∃ e, step (b ++ e) ≠ .needMore := by
+  rcases hp with rfl | rfl | rfl <;> simp only [frameStepOf, Option.some.injEq] at hs <;> subst hs
+  · exact envelope_live _ _ dubboHdr_live b h
+  · exact envelope_live _ _ thriftHdr_live b h
+  · exact envelope_live _ _ tarsHdr_live b h
+
+/-- the checked tars decoder (the one the `dec` / `disp` cases are compared with) never answers need-more on a buffer
+the declarative reference calls hopeless (announced package length < 4 or > 10 MiB): the predicate added to kinds
+`dec` and `disp` holds of the model -/
+theorem tars_needmore_never_hopeless (oracle : Bytes → Bool) (b : Bytes)
+    (h : (chkTars oracle b).out.toStep b = .needMore) : hopeless "tars" b = false := by
+  rw [MosnVerif.Model.FrameChk.chkTars_refines] at h
+  apply tarsHdr_needMore_not_hopeless
+  unfold frameStep_tars envelope at h
+  split at h
+  · assumption
+  · cases h
+  · split at h <;> cases h
+
+/-- witness of the repaired defect: a decoder that maps PACKAGE_ERROR to "need more data" (the code before the fix)
+waits for ever on the prefix 00 00 00 00 — whatever follows -/
+theorem tars_package_error_as_needmore_is_stuck (e : Bytes) :
+    (fun (b : Bytes) => if b.length < 4 then Hdr.needMore else
+      if be b 0 4 < 4 ∨ be b 0 4 > 10485760 then Hdr.needMore else
+      if b.length < be b 0 4 then Hdr.needMore else Hdr.len (be b 0 4)) ([0, 0, 0, 0] ++ e) = .needMore := by
+  have h : be ([0, 0, 0, 0] ++ e) 0 4 = 0 := by
+    rw [MosnVerif.Model.FrameSteps.be_append [0, 0, 0, 0] e 0 4 (by simp)]; decide
+  simp only [h]; simp
+
+-- non-vacuity: buffers tars answers need-more on (short prefix; 6 announced, 5 buffered) and their completions
+example : frameStep_tars (fun _ => true) [0, 0] = .needMore ∧ frameStep_tars (fun _ => true) [0, 0, 0, 6, 16] = .needMore ∧
+    frameStep_tars (fun _ => true) ([0, 0, 0, 6, 16] ++ [1]) = .frame [0, 0, 0, 6, 16, 1] 6 := by decide
+example : frameStep_tars (fun _ => true) [0, 0, 0, 3] = .error ∧ frameStep_tars (fun _ => true) [0xff, 0xff, 0xff, 0xff, 1] = .error ∧
+    hopeless "tars" [0, 0, 0, 3] = true ∧ hopeless "tars" [0, 0, 0, 4] = false ∧ hopeless "tars" [0, 0xa0, 0, 1] = true := by decide
+end c08l9needmore
+
+/-! ## [c08l9] trailers: a second HEADERS frame on a request stream never reaches a nil trailer object -/
+section c08l9trailers
+open MosnVerif.Model.H2Trailers MosnVerif.Lemmas.H2Trailers MosnVerif.Gen
+
+/-- the facts read off the regenerated structure (Gen/C08H2Trailers): processHeaders refuses HEADERS for a stream that
+is half-closed(remote) BEFORE mprocessTrailerHeaders; handleFrame allocates the trailer object of every request that
+is not ended by its HEADERS frame; mprocessTrailerHeaders has the order of tests the model is written from -/
+theorem trailers_cfg_safe : Cfg.Safe cfgGen ∧
+    C08H2Trailers.srvTrailerSteps = ["sc:=st.sc", "if st.gotTrailerHeader", "st.gotTrailerHeader=true",
+      "if !f.StreamEnded()", "if len(f.PseudoFields())>0", "if st.trailer!=nil", "st.state=stateHalfClosedRemote"] := by
+  refine ⟨⟨by decide, by decide⟩, by decide⟩
+
+/-- **trailers_never_nil_deref**: for EVERY sequence of HEADERS (request head / trailers, with or without END_STREAM,
+declared `Trailer` or not, pseudo or forbidden fields) and DATA frames a client sends on a stream, the server's
+handleFrame never assigns through a nil `stream.trailer` (no panic on the connection's read goroutine), and a
+registered stream that is still open always has its trailer object. -/
+theorem trailers_never_nil_deref (evs : List Ev) :
+    (run cfgGen {} evs).panicked = false ∧
+    ((run cfgGen {} evs).reg = true → (run cfgGen {} evs).ms = .open → (run cfgGen {} evs).tobj = true) :=
+  run_inv cfgGen trailers_cfg_safe.1 evs {} ⟨rfl, by intro h; cases h⟩
+
+/-- the model's outcome of EVERY `h2trail` case satisfies the predicate -/
+theorem h2trail_spec_holds_on_model (evs : List Ev) :
+    h2trailSpec (if (run cfgGen {} evs).panicked then "panic" else "ret") = true := by
+  rw [(trailers_never_nil_deref evs).1]; decide
+
+/-- witness of the repaired defect: WITHOUT the half-closed(remote) test, HEADERS(END_STREAM) followed by trailers
+HEADERS(END_STREAM) — a request that already ended has no trailer object — is a nil dereference -/
+theorem trailers_without_state_check_panic :
+    (run { cfgGen with stateCheck := false } {} [.headers .head false true, .headers .trail false true]).panicked = true := by
+  decide
+
+-- non-vacuity: legitimate trailers are delivered; trailers after the end of the request are refused with a reset
+example : (run cfgGen {} [.headers .head true false, .data false, .headers .trail false true]).del = ["hbt"] := by decide
+example : let s := run cfgGen {} [.headers .head false true, .headers .trail false true]
+    s.del = ["h"] ∧ s.resets = 1 ∧ s.rst = 1 ∧ s.closed = false ∧ s.panicked = false := by decide
+end c08l9trailers
 
 end MosnVerif.Props.C08
